@@ -135,6 +135,8 @@ type Opts struct {
 	MaxMethods int
 	// NullCompare switches on boolean methods whose return expression compares with the null literal.
 	NullCompare bool
+	// DefaultPkg lets some files have no package declaration.
+	DefaultPkg bool
 }
 
 type gen struct {
@@ -153,6 +155,9 @@ func Generate(r *run.Rand, o Opts) *Project {
 	usedCls := map[string]bool{}
 	for i := 0; i < n; i++ {
 		c := &Class{Pkg: r.Pick(pkgs)}
+		if o.DefaultPkg && r.Chance(1, 7) {
+			c.Pkg = "" // no package line: the class lives in the default package
+		}
 		switch k := r.Intn(10); {
 		case k < 3:
 			c.Kind = KindUtil
@@ -190,7 +195,7 @@ func Generate(r *run.Rand, o Opts) *Project {
 		if p.Layout == "maven" {
 			dir = "src/main/java/" + dir
 		}
-		c.RelPath = dir + "/" + c.Name + ".java"
+		c.RelPath = strings.TrimPrefix(strings.TrimSuffix(dir, "/")+"/"+c.Name+".java", "/")
 		c.Text = render(c)
 		p.Classes = append(p.Classes, c)
 	}
@@ -657,7 +662,9 @@ func (g *gen) fillBody(m *Method, isRef bool) {
 
 func render(c *Class) string {
 	var sb strings.Builder
-	sb.WriteString("package " + c.Pkg + ";\n\n")
+	if c.Pkg != "" {
+		sb.WriteString("package " + c.Pkg + ";\n\n")
+	}
 	for _, im := range c.Imports {
 		sb.WriteString("import " + im + ";\n")
 	}
